@@ -3,5 +3,6 @@ CONSTANTS
   Who = "gix"
   BugIncl = FALSE
   BugSkip = FALSE
+  BugDotGit = FALSE
 INVARIANT EventOk
 CHECK_DEADLOCK FALSE
